@@ -1,6 +1,8 @@
 """Shared machinery of the lifecycle family C04, C06, C08, C09, C10 (one Coq model coq/Model/Life.v, one
 driver ocaml/life_driver.ml, one harness harness/h_life.cpp built once per configuration).
-A configuration = rank D, element type (0 int / 1 tracked), the three propagate_on_container_* traits,
+A configuration = rank D, element kind t (0 int / 1 tracked class / 2 struct{int v = 0;}: not trivially default
+constructible, trivially destructible / 3 trivial default constructor with user-provided copy: not is_trivial /
+4 tracked class with a noexcept move assignment and a throwing copy assignment), the three propagate_on_container_* traits,
 is_always_equal, pmr, and what select_on_container_copy_construction returns (run-time switch of the
 instrumented allocator).  Histories are text; the driver generates them against the model so that every
 operation is in its documented domain, runs the extracted model on them, and the harness runs the
@@ -258,7 +260,11 @@ def verdict_from_texts(block, m, i, crash=None):
         if "Assertion" in tail:
             rec["detail"] = "assertion: " + tail.split("Assertion")[-1][:160]
         elif "terminate called" in err:
-            rec["detail"] = "std::terminate: " + " ".join(err.strip().splitlines()[-2:])[-160:]
+            # an exception thrown inside the library escaped a noexcept function: it did not reach the caller
+            rec["kind"] = "terminate"
+            rec["detail"] = "std::terminate, the exception did not reach the caller: " + " ".join(err.strip().splitlines()[-2:])[-160:]
+            return ("terminate", "", "std::terminate in operation %s: the exception did not reach the caller (exit/signal %s)"
+                    % (rec["op"], rc), rec)
         return ("crash", "", "exit/signal %s: %s" % (rc, tail[-300:]), rec)
     mon = monitors(i)
     d = core.diff_cases(canon(m), canon(i))
